@@ -24,7 +24,7 @@ Record bres := mkBR {
 }.
 
 (** func (db *DB) checkDatabaseBehindReplica(ctx) error *)
-Definition check_behind (st : ust) (s : list coutcome) : bres :=
+Definition check_behind (sized : bool) (st : ust) (s : list coutcome) : bres :=
   let dbpos := maxl (u_local st) in                              (* dbPos, err := db.Pos() *)
   let '(o, s1) := next_outcome s in
   let tr := [mkC 0 0 (u_remote st)] in
@@ -44,9 +44,14 @@ Definition check_behind (st : ust) (s : list coutcome) : bres :=
         | FailAfter => mkBR false st1 false s2 tr2
         | ErrMidStream _ => mkBR false st1 false s2 tr2          (* io.Copy fails: "copy L0 file", temp file removed *)
         | ShortRead _ =>
-            (* io.Copy over the raw stream sees a clean EOF: the truncated temp file is
-               synced and renamed into place, and the function returns nil *)
-            mkBR true (mkU (u_remote st) (u_pos st) [rmax]) true s2 tr2
+            (* io.Copy over the raw stream sees a clean EOF.
+               else if replicaInfo.Size > 0 && n != replicaInfo.Size { return "copy L0 file: short read" }
+               (fix 086c0cc).  [sized] = the listing entry carries a size (> 0); a client
+               that reports Size 0 gets no check: the truncated temp file is synced and
+               renamed into place and the function returns nil — the behaviour of every
+               client before the fix *)
+            if sized then mkBR false st1 false s2 tr2
+            else mkBR true (mkU (u_remote st) (u_pos st) [rmax]) true s2 tr2
         end
   end.
 
@@ -55,12 +60,12 @@ Record sobs := mkSO { so_err : N; so_pos : N; so_trace : list ccall }.
 (** [DB.SyncAndWait]: db.Sync (init first, if still to do), then Replica.Sync.
     What db.Sync does to the local level-0 set is the environment's business:
     [local_after] is the set it leaves. *)
-Definition sync_wait (b : bst) (s : list coutcome) (local_after : list N) : bst * sobs :=
+Definition sync_wait (sized : bool) (b : bst) (s : list coutcome) (local_after : list N) : bst * sobs :=
   if b_corrupt b then (b, mkSO E_CLIENT (u_pos (b_u b)) [])      (* db.Pos(): "ltx file corrupted" *)
   else
     let i :=
       if b_init b then mkBR true (b_u b) false s []
-      else check_behind (b_u b) s in
+      else check_behind sized (b_u b) s in
     if negb (br_ok i) then (mkB (br_st i) false false, mkSO E_CLIENT (u_pos (br_st i)) (br_trace i))
     else if br_corrupt i then (mkB (br_st i) true true, mkSO E_CLIENT (u_pos (br_st i)) (br_trace i))
     else
@@ -69,12 +74,12 @@ Definition sync_wait (b : bst) (s : list coutcome) (local_after : list N) : bst 
       (mkB (s_st r) true false,
        mkSO (if N.eqb (s_err r) E_NIL then E_NIL else E_CLIENT) (u_pos (s_st r)) (br_trace i ++ s_trace r)).
 
-Fixpoint sync_waits (b : bst) (steps : list (list coutcome * list N)) : bst * list sobs :=
+Fixpoint sync_waits (sized : bool) (b : bst) (steps : list (list coutcome * list N)) : bst * list sobs :=
   match steps with
   | [] => (b, [])
   | (s, l) :: tl =>
-      let '(b1, o) := sync_wait b s l in
-      let '(bf, os) := sync_waits b1 tl in
+      let '(b1, o) := sync_wait sized b s l in
+      let '(bf, os) := sync_waits sized b1 tl in
       (bf, o :: os)
   end.
 
